@@ -50,6 +50,12 @@ def external_member(ver, modname, attr):
     key = (modname.split(".")[0] if modname else "", attr)
     if key in TABLE:
         return VFunc("builtin", "%s.%s" % key, impl=TABLE[key])
+    # abstract file system / OS primitives (os, pathlib, tempfile, time.sleep, random.uniform, errno, json.dumps)
+    from . import fsmodel
+    if key in fsmodel.TABLE:
+        return VFunc("builtin", "%s.%s" % key, impl=fsmodel.TABLE[key])
+    if key in fsmodel.CONSTS:
+        return mk_const(fsmodel.CONSTS[key])
     if key[0] == "collections" and attr == "OrderedDict":
         return VClass("OrderedDict")
     if key[0] in ("typing", "typing_extensions", "__future__", "dataclasses", "abc"):
